@@ -31,7 +31,9 @@ def _jobs(ctx, entries):
     jobs = []
     for k, e in enumerate(entries):
         if ctx.tier == "thorough":
-            sample = {lvl: list(names[lvl]) for lvl in RUN.LEVELS}
+            # every pass class is skipped on every program, at one level per program (rotating); all levels are compared
+            lvl = RUN.LEVELS[(k + ctx.seed) % len(RUN.LEVELS)]
+            sample = {lvl: list(names[lvl])}
             levels = list(RUN.LEVELS)
         else:
             # every pass class of every level is skipped on some program: rotate through the (level, pass) list
@@ -41,7 +43,8 @@ def _jobs(ctx, entries):
             sample = {lvl: [ps[(start + j) % len(ps)] for j in range(2)]}
             levels = list(RUN.LEVELS)
         jobs.append({"entry": e, "tier": ctx.tier, "seed": ctx.seed, "levels": levels, "skip_sample": sample,
-                     "want_snaps": True, "roundtrip_budget": 60 if ctx.tier == "quick" else 10 ** 9})
+                     "want_snaps": True, "roundtrip_budget": 60 if ctx.tier == "quick" else 10 ** 9,
+                     "n_inputs": 10 if ctx.tier == "quick" else 14})
     return jobs
 
 
@@ -53,7 +56,7 @@ def stage1(ctx):
     t0 = time.time()
     # biggest first for load balance
     jobs.sort(key=lambda j: -len(j["entry"]["src"]))
-    with mp.get_context("fork").Pool(WORKERS) as pool:
+    with mp.get_context("fork").Pool(WORKERS if ctx.tier == "quick" else 2 * WORKERS) as pool:
         results = list(pool.imap_unordered(_worker, jobs, chunksize=1))
     results.sort(key=lambda r: r["name"])
     by_name = {e["name"]: e for e in entries}
@@ -142,3 +145,9 @@ def part_passes(ctx):
     ctx.trusted += ["pyrevm (EVM used to observe compiled programs)",
                     "legacy pipeline at -O none as behavioural reference for the Venom pipelines (differential, not proof)"]
     return n1 + n2
+
+
+def prebuild(ctx):
+    """for setup_cmd: compile the static Venom files and the generated effect table once (content-keyed reuse later)"""
+    from vlib import c14_pass_sem as SEM
+    SEM.build_proofs(ctx)
